@@ -373,17 +373,18 @@ func (r *Runner) run(spec *PropSpec) *runResult {
 	if r.tier == "thorough" {
 		timeout = 60
 	}
-	if r.dump != "" {
-		for _, o := range res.obls {
-			if o.Name == r.dump {
-				fmt.Println(o.Query(true))
-			}
-		}
-	}
 	// everything that extends the (shared, unsynchronised) registry happens before the parallel phase
 	r.w.Reg.SortOf(r.w.jsonType())
 	r.w.Reg.SortOf(types.NewSlice(types.Typ[types.Uint8]))
 	r.w.axiomTexts()
+	if r.dump != "" {
+		for _, o := range res.obls {
+			if o.Name == r.dump {
+				os.WriteFile("/tmp/govc_dump.smt2", []byte(o.Query(false)), 0644)
+				fmt.Fprintln(os.Stderr, "query written to /tmp/govc_dump.smt2")
+			}
+		}
+	}
 	dischargeAll(res.obls, dischargeOpts{timeoutS: timeout, allAgree: r.tier == "thorough", scratch: scratch, parallel: 16})
 	for _, o := range res.obls {
 		res.solverMs += o.TimeMs
@@ -650,6 +651,15 @@ func (r *Runner) checkMulti(specs map[string]*PropSpec, ids []string) int {
 		}
 		fmt.Printf("MULTI %s violations=%d %s\n", id, len(fs), first)
 	}
-	fmt.Printf("multi: obligations=%d wall=%.1fs\n", len(res.obls), time.Since(r.t0).Seconds())
+	retried := 0
+	for _, o := range res.obls {
+		if strings.HasPrefix(o.RawOut, "first attempt") {
+			retried++
+			if r.verbose {
+				fmt.Printf("  retried: %s -> %s (%s)\n", o.Name, o.Status, o.Solver)
+			}
+		}
+	}
+	fmt.Printf("multi: obligations=%d retried=%d wall=%.1fs\n", len(res.obls), retried, time.Since(r.t0).Seconds())
 	return rc
 }
